@@ -70,12 +70,12 @@ Lemma piece_cases (l u' c2 z : bytes) :
      (m = [13] /\ c2b = [] /\ u' = 10 :: z) \/
      (m = [13; 10] /\ c2b = [] /\ u' = z)).
 Proof.
-  intros H Hn. apply app_eq_app in H. destruct H as [k [[H1 H2] | [H1 H2]]].
-  - (* c2 = l ++ k *)
+  intros H Hn. apply app_eq_app in H. destruct H as [k [[H1 H2] | [H1 H2]]]; [|
+    (* c2 = l ++ k *)
     exists l, k, []. rewrite app_nil_r.
-    split; [reflexivity|]. split; [exact H1|]. left. split; [reflexivity|exact H2].
-  - (* l = c2 ++ k, 13::10::z = k ++ u' *)
-    destruct k as [|k1 k].
+    split; [reflexivity|]. split; [exact H1|]. left. split; [reflexivity|exact H2]].
+  (* l = c2 ++ k, 13::10::z = k ++ u' *)
+  - destruct k as [|k1 k].
     + exists l, [], []. rewrite !app_nil_r. cbn [app] in H2.
       rewrite app_nil_r in H1. subst c2.
       split; [reflexivity|]. split; [reflexivity|]. left.
